@@ -12,6 +12,33 @@ import Proofs.Basic.Bytes
 -/
 namespace Json
 
+/-! ## `beq` decides equality -/
+
+mutual
+theorem beq_iff : (a b : Json) → (beq a b = true ↔ a = b)
+  | .null, b => by cases b <;> simp [beq]
+  | .bool x, b => by cases b <;> simp [beq]
+  | .num x, b => by cases b <;> simp [beq]
+  | .str x, b => by cases b <;> simp [beq]
+  | .arr xs, b => by cases b <;> simp [beq, beqList_iff xs]
+  | .obj xs, b => by cases b <;> simp [beq, beqMembers_iff xs]
+theorem beqList_iff : (xs ys : List Json) → (beqList xs ys = true ↔ xs = ys)
+  | [], ys => by cases ys <;> simp [beqList]
+  | x :: xs, ys => by cases ys <;> simp [beqList, beq_iff x, beqList_iff xs]
+theorem beqMembers_iff :
+    (xs ys : List (Bytes × Json)) → (beqMembers xs ys = true ↔ xs = ys)
+  | [], ys => by cases ys <;> simp [beqMembers]
+  | (k, x) :: xs, ys => by
+    cases ys with
+    | nil => simp [beqMembers]
+    | cons y ys =>
+      obtain ⟨l, y⟩ := y
+      simp [beqMembers, beq_iff x, beqMembers_iff xs, and_assoc]
+end
+
+/-- Decidable equality of documents, computed by `Json.beq`. -/
+instance : DecidableEq Json := fun a b => decidable_of_iff _ (beq_iff a b)
+
 /-- Member list strictly ascending by key (bytewise). -/
 abbrev KeySorted (l : List (Bytes × Json)) : Prop := l.Pairwise (fun a b => a.1 < b.1)
 
@@ -119,8 +146,7 @@ theorem lookup_insertKV (k k' : Bytes) (v : Json) (l : List (Bytes × Json)) :
       · rw [if_neg heq]
         simp only [lookup, ih]
         by_cases hk : k = k''
-        · have : k ≠ k' := fun e => heq (e ▸ hk)
-          simp [hk]
+        · simp [hk]
           intro e; exact absurd e.symm heq
         · simp [hk]
 
@@ -447,6 +473,105 @@ theorem sortMembers_idem :
   | (k, v) :: rest => by simp only [sortMembers, sortJSON_idem v, sortMembers_idem rest]
 end
 
+/-! ## The output is sorted at every level, and sorted documents are fixed points -/
+
+mutual
+/-- Every object of the document, at any depth, has strictly ascending keys. -/
+def DeepSorted : Json → Prop
+  | .arr xs => DeepSortedList xs
+  | .obj kvs => KeySorted kvs ∧ DeepSortedMembers kvs
+  | .null => True
+  | .bool _ => True
+  | .num _ => True
+  | .str _ => True
+/-- `DeepSorted` for every element. -/
+def DeepSortedList : List Json → Prop
+  | [] => True
+  | x :: xs => DeepSorted x ∧ DeepSortedList xs
+/-- `DeepSorted` for every member value. -/
+def DeepSortedMembers : List (Bytes × Json) → Prop
+  | [] => True
+  | (_, v) :: rest => DeepSorted v ∧ DeepSortedMembers rest
+end
+
+theorem deepSortedMembers_iff {l : List (Bytes × Json)} :
+    DeepSortedMembers l ↔ ∀ p ∈ l, DeepSorted p.2 := by
+  induction l with
+  | nil => simp [DeepSortedMembers]
+  | cons hd tl ih => obtain ⟨k, v⟩ := hd; simp [DeepSortedMembers, ih]
+
+theorem mem_foldl_insertKV {kvs acc : List (Bytes × Json)} {p : Bytes × Json}
+    (h : p ∈ kvs.foldl (fun acc kv => insertKV kv.1 kv.2 acc) acc) : p ∈ acc ∨ p ∈ kvs := by
+  induction kvs generalizing acc with
+  | nil => exact Or.inl h
+  | cons kv rest ih =>
+    rcases ih h with h | h
+    · rcases mem_insertKV h with h | h
+      · exact Or.inr (h ▸ List.mem_cons_self)
+      · exact Or.inl h
+    · exact Or.inr (List.mem_cons_of_mem _ h)
+
+/-- `sortKVs` only selects members of its input. -/
+theorem mem_sortKVs {kvs : List (Bytes × Json)} {p : Bytes × Json} (h : p ∈ sortKVs kvs) :
+    p ∈ kvs := by
+  rcases mem_foldl_insertKV h with h | h
+  · cases h
+  · exact h
+
+mutual
+/-- The canonical form has strictly ascending keys in every object, at every depth. -/
+theorem sortJSON_deepSorted : (a : Json) → DeepSorted (sortJSON a)
+  | .null => trivial
+  | .bool _ => trivial
+  | .num _ => trivial
+  | .str _ => trivial
+  | .arr xs => by simp only [sortJSON, DeepSorted]; exact sortList_deepSorted xs
+  | .obj kvs => by
+    simp only [sortJSON, DeepSorted]
+    refine ⟨sortKVs_sorted _, deepSortedMembers_iff.mpr fun p hp => ?_⟩
+    exact deepSortedMembers_iff.mp (sortMembers_deepSorted kvs) p (mem_sortKVs hp)
+theorem sortList_deepSorted : (xs : List Json) → DeepSortedList (sortList xs)
+  | [] => trivial
+  | x :: xs => by
+    simp only [sortList, DeepSortedList]; exact ⟨sortJSON_deepSorted x, sortList_deepSorted xs⟩
+theorem sortMembers_deepSorted :
+    (kvs : List (Bytes × Json)) → DeepSortedMembers (sortMembers kvs)
+  | [] => trivial
+  | (k, v) :: rest => by
+    simp only [sortMembers, DeepSortedMembers]
+    exact ⟨sortJSON_deepSorted v, sortMembers_deepSorted rest⟩
+end
+
+mutual
+/-- A document whose objects all have strictly ascending keys is its own canonical form. -/
+theorem sortJSON_of_deepSorted : (a : Json) → DeepSorted a → sortJSON a = a
+  | .null, _ => rfl
+  | .bool _, _ => rfl
+  | .num _, _ => rfl
+  | .str _, _ => rfl
+  | .arr xs, h => by
+    simp only [DeepSorted] at h
+    simp only [sortJSON, sortList_of_deepSorted xs h]
+  | .obj kvs, h => by
+    simp only [DeepSorted] at h
+    simp only [sortJSON, sortMembers_of_deepSorted kvs h.2, sortKVs_of_sorted h.1]
+theorem sortList_of_deepSorted : (xs : List Json) → DeepSortedList xs → sortList xs = xs
+  | [], _ => rfl
+  | x :: xs, h => by
+    simp only [DeepSortedList] at h
+    simp only [sortList, sortJSON_of_deepSorted x h.1, sortList_of_deepSorted xs h.2]
+theorem sortMembers_of_deepSorted :
+    (kvs : List (Bytes × Json)) → DeepSortedMembers kvs → sortMembers kvs = kvs
+  | [], _ => rfl
+  | (k, v) :: rest, h => by
+    simp only [DeepSortedMembers] at h
+    simp only [sortMembers, sortJSON_of_deepSorted v h.1, sortMembers_of_deepSorted rest h.2]
+end
+
+/-- The fixed points of `sortJSON` are exactly the documents sorted at every level. -/
+theorem sortJSON_eq_self_iff (a : Json) : sortJSON a = a ↔ DeepSorted a :=
+  ⟨fun h => h ▸ sortJSON_deepSorted a, sortJSON_of_deepSorted a⟩
+
 /-! ## The sign doc -/
 
 theorem signDoc_keys (chainId : Bytes) (entropy : Int) (fee msg : Json) (memo : Bytes) :
@@ -492,5 +617,82 @@ theorem signBytes_field_order_irrelevant (chainId : Bytes) (entropy : Int) (fee 
   have hp : (sortMembers (signDocMembers chainId entropy fee msg memo)).Perm (sortMembers members) := by
     rw [sortMembers_eq_map, sortMembers_eq_map]; exact (h.map _).symm
   rw [sortKVs_perm hp (by rw [sortMembers_keys]; exact signDoc_keys_nodup ..)]
+
+/-! ## Non-vacuity: concrete instances of every statement above -/
+
+/-- `{"b":[{"y":1,"x":2}],"a":null}` -/
+def exA : Json :=
+  .obj [(ascii "b", .arr [.obj [(ascii "y", .num 1), (ascii "x", .num 2)]]), (ascii "a", .null)]
+/-- `{"a":null,"b":[{"x":2,"y":1}]}`: `exA` with the members of both objects reordered. -/
+def exB : Json :=
+  .obj [(ascii "a", .null), (ascii "b", .arr [.obj [(ascii "x", .num 2), (ascii "y", .num 1)]])]
+
+-- `insertKV_sorted`, `sortKVs_sorted`: insertion in the middle / duplicate keys, unsorted input
+example : KeySorted (insertKV [2] .null [([1], .null), ([3], .null)]) :=
+  insertKV_sorted _ _ (by decide)
+example : insertKV [2] .null [([1], .null), ([3], .null)] =
+    [([1], .null), ([2], .null), ([3], .null)] := by decide
+example : insertKV [3] (.num 7) [([1], .null), ([3], .null)] = [([1], .null), ([3], .num 7)] := by
+  decide
+example : sortKVs [([3], .num 1), ([1], .num 2), ([3], .num 3), ([2], .null)] =
+    [([1], .num 2), ([2], .null), ([3], .num 3)] := by decide
+-- `lookup_sortKVs`: the last of the two members with key `[3]` wins
+example : lookupLast [3] [([3], .num 1), ([1], .num 2), ([3], .num 3), ([2], .null)] =
+    some (.num 3) := by decide
+example : lookup [3] (sortKVs [([3], .num 1), ([1], .num 2), ([3], .num 3), ([2], .null)]) =
+    some (.num 3) := by decide
+-- `sortKVs_perm`: a non-trivial permutation with distinct keys …
+example : sortKVs [([3], .num 1), ([1], .num 2), ([2], .null)] =
+    sortKVs [([2], .null), ([3], .num 1), ([1], .num 2)] :=
+  sortKVs_perm (by decide) (by decide)
+-- … and the `Nodup` hypothesis cannot be dropped: with a duplicate key the order matters
+example : [([1], Json.num 1), ([1], .num 2)].Perm [([1], .num 2), ([1], .num 1)] ∧
+    sortKVs [([1], .num 1), ([1], .num 2)] ≠ sortKVs [([1], .num 2), ([1], .num 1)] := by decide
+
+-- `sortJSON_perm_invariant` / `signbytes_canonical`: nested objects in different member order
+example : exA ≠ exB := by decide
+theorem exA_permEq_exB : PermEq exA exB :=
+  .obj (kvs₂' := [(ascii "b", .arr [.obj [(ascii "x", .num 2), (ascii "y", .num 1)]]),
+                  (ascii "a", .null)])
+    (by decide) (List.Perm.swap _ _ _)
+    (.cons (.arr (.cons
+      (.obj (kvs₂' := [(ascii "y", .num 1), (ascii "x", .num 2)]) (by decide) (List.Perm.swap _ _ _)
+        (.cons (.num 1) (.cons (.num 2) .nil))) .nil))
+      (.cons .null .nil))
+example : sortJSON exA = sortJSON exB := sortJSON_perm_invariant exA_permEq_exB
+example : render (sortJSON exA) = render (sortJSON exB) := signbytes_canonical exA_permEq_exB
+example : render (sortJSON exA) = ascii "{\"a\":null,\"b\":[{\"x\":2,\"y\":1}]}" := by decide
+example : render exA ≠ render exB := by decide
+-- `sortJSON_idem` on a document that is not yet canonical
+example : sortJSON exA ≠ exA ∧ sortJSON (sortJSON exA) = sortJSON exA := by decide
+-- the decoder and the executable spec on the same documents
+example : parse (ascii " {\"b\" : [ {\"y\":1, \"x\":2} ],\n \"a\":null} ") = some exA := by
+  decide +kernel
+example : isCanonical (ascii "{\"a\":null,\"b\":[{\"x\":2,\"y\":1}]}") = true := by decide +kernel
+example : isCanonical (ascii "{\"b\":[{\"y\":1,\"x\":2}],\"a\":null}") = false := by decide +kernel
+
+/-- A sign doc: a send message with a fee, memo `<memo>` (HTML-escaped by Go), entropy `-12`. -/
+def exFee : Json :=
+  .arr [.obj [(ascii "denom", .str (ascii "upokt")), (ascii "amount", .str (ascii "10000"))]]
+/-- The message part of the example sign doc (members deliberately not in key order). -/
+def exMsg : Json :=
+  .obj [(ascii "type", .str (ascii "pos/Send")),
+        (ascii "value", .obj [(ascii "to_address", .str (ascii "ab")),
+                              (ascii "from_address", .str (ascii "cd")),
+                              (ascii "amount", .str (ascii "1"))])]
+
+example : signBytes (ascii "testnet") (-12) exFee exMsg (ascii "<memo>") =
+    ascii ("{\"chain_id\":\"testnet\",\"entropy\":\"-12\"," ++
+      "\"fee\":[{\"amount\":\"10000\",\"denom\":\"upokt\"}],\"memo\":\"\\u003cmemo\\u003e\"," ++
+      "\"msg\":{\"type\":\"pos/Send\",\"value\":{\"amount\":\"1\",\"from_address\":\"cd\"," ++
+      "\"to_address\":\"ab\"}}}") := by decide +kernel
+
+-- `signBytes_field_order_irrelevant`: the members in reverse struct order
+example : render (sortJSON (.obj
+      [(ascii "entropy", .str (intDigits (-12))), (ascii "msg", exMsg),
+       (ascii "memo", .str (ascii "<memo>")), (ascii "fee", exFee),
+       (ascii "chain_id", .str (ascii "testnet"))])) =
+    signBytes (ascii "testnet") (-12) exFee exMsg (ascii "<memo>") :=
+  signBytes_field_order_irrelevant _ _ _ _ _ _ (by decide +kernel)
 
 end Json
